@@ -308,6 +308,6 @@ func TestCrossGeneration(t *testing.T) {
 			}
 			return cl
 		},
-		Quick: 6000, Thorough: 60000,
+		Quick: 5000, Thorough: 40000,
 	})
 }
